@@ -49,7 +49,12 @@ func VrfC06Views() {
 			p.Allocations = append(p.Allocations, vrfOther)
 		case 4:
 			p.Type = api.MetaType
-			p.ReplicationFactorMin, p.ReplicationFactorMax = -1, -1
+			// a meta entry never has allocations of its own; its factors are those of the add
+			if vrf_choice("meta_everywhere", 2) == 1 {
+				p.ReplicationFactorMin, p.ReplicationFactorMax = -1, -1
+			} else {
+				p.ReplicationFactorMin, p.ReplicationFactorMax = 2, 3
+			}
 		}
 		ps.set(p)
 	}
